@@ -21,6 +21,7 @@ ASSUMPTIONS = ["mutating a member segment directly is not 'through the Path's ow
                "(reusing a tighter cached value is allowed); all other queries compare with == / same exception type"]
 # coverage-guided second engine (atheris), thorough tier only: (shards, libFuzzer runs per shard)
 FUZZ = {'thorough': (16, 12000)}
+RULE += " Also: Tolerance histories inside the quadratic's numerically integrated branch; reassignments to hash-colliding values."   # added after the seeded-change rounds (DESIGN.md section 10)
 CONFIGS = ['scipy', 'noscipy']
 BUDGET = {'quick': {'scipy': 700, 'noscipy': 300}, 'thorough': {'scipy': 20000, 'noscipy': 6000}}
 EXHAUSTIVE_NOTE = "24-operation alphabet, per configuration: quick = all sequences of depth <= 2 + a deterministic third of depth 3; thorough = all of depth <= 3 + a sixth of depth 4"
